@@ -12,6 +12,7 @@ import (
 	"github.com/holiman/uint256"
 	rtypes "github.com/rigochain/rigo-go/types"
 	"verifharness/internal/appdrv"
+	"verifharness/internal/evmgen"
 	"verifharness/internal/rng"
 )
 
@@ -55,6 +56,11 @@ type StakeRef struct {
 	Power int64
 }
 
+type ContractRef struct {
+	Addr rtypes.Address
+	Prog evmgen.Program
+}
+
 type PropRef struct {
 	Hash       []byte
 	Start, End int64
@@ -78,7 +84,9 @@ type Sim struct {
 	TMError string // first Tendermint rejection of a validator update list
 	Violations []string
 	nodeSeq int
-	Contracts []rtypes.Address
+	Contracts []ContractRef
+	Children  []rtypes.Address // contracts created by inner CREATE (no native code marker)
+	PendingProg map[string]evmgen.Program // deploy tx hash -> program
 	Opt     Options
 	absentIdx, absentLeft int
 	Obs     Observer
@@ -92,6 +100,7 @@ type Sim struct {
 type Observer interface {
 	OnInit(s *Sim, post string)
 	OnBegin(s *Sim, a *BeginArgs, pre, post string, out appdrv.BeginOut)
+	OnPreDeliver(s *Sim, bz []byte)
 	OnDeliver(s *Sim, bz []byte, pre, post string, o appdrv.TxOut, tr *appdrv.EvmTrace)
 	OnEnd(s *Sim, pre, post string, ups []appdrv.ValUp)
 	OnCommit(s *Sim, post string, hash []byte)
@@ -140,7 +149,7 @@ func GenParams(r *rng.R) *appdrv.Params {
 }
 
 func NewSim(seed uint64, r *rng.R, work string, opt Options) (*Sim, error) {
-	s := &Sim{R: r, Seed: seed, Work: work, Opt: opt, ValSets: map[int64][]ValInfo{}, Time: 1700000000}
+	s := &Sim{R: r, Seed: seed, Work: work, Opt: opt, ValSets: map[int64][]ValInfo{}, Time: 1700000000, PendingProg: map[string]evmgen.Program{}}
 	nvals := []int{1, 2, 3, 3, 4, 5, 5, 6}[r.Intn(8)]
 	nusers := r.Range(2, 5)
 	for i := 0; i < nvals+nusers; i++ {
